@@ -280,7 +280,20 @@ def _flat_items(nm: Names, sw: list[int]) -> dict[str, Any]:
             items.append(Default(body(1) + [Ctl("break")]))
         return Switch(sw[0], items)
 
+    def switch_default_at(pos: int, ncase: int) -> Any:
+        sw[0] += 1
+        v = 10 * sw[0]
+        items: list[Any] = [Case([v + 2 * i], body(1 + (i % 2)) + [Ctl("break")]) for i in range(ncase)]
+        items.insert(pos, Default(body(1) + [Ctl("break")]))
+        return Switch(sw[0], items)
+
     return {
+        "switch-default-first": lambda: switch_default_at(0, 2),
+        "switch-default-middle": lambda: switch_default_at(1, 2),
+        "switch1-default-first": lambda: switch_default_at(0, 1),
+        "if2-elseif-elseif3": lambda: If(False, [nm.h()], body(2), [(False, [nm.h()], body(1)), (False, [nm.h()], body(3))]),
+        "if3-elseif2-elseif3": lambda: If(False, [nm.h()], body(3), [(False, [nm.h()], body(2)), (False, [nm.h()], body(3))]),
+        "if-elseif3": lambda: If(False, [nm.h()], body(1), [(False, [nm.h()], body(3))]),
         "plain": lambda: nm.p(),
         "with": lambda: With("actor", nm.p()),
         "if": lambda: If(False, [nm.h()], body(1)),
@@ -307,7 +320,7 @@ def _flat_items(nm: Names, sw: list[int]) -> dict[str, Any]:
     }
 
 
-FLAT_KINDS = ["plain", "with", "if", "if2", "ifnot", "if-or", "if-else", "ifnot-else", "if-elseif", "if-elseif-else", "if-elseifnot-else", "if-or-elseif-or-else",
+FLAT_KINDS = ["switch-default-first", "switch-default-middle", "switch1-default-first", "if2-elseif-elseif3", "if3-elseif2-elseif3", "if-elseif3", "plain", "with", "if", "if2", "ifnot", "if-or", "if-else", "ifnot-else", "if-elseif", "if-elseif-else", "if-elseifnot-else", "if-or-elseif-or-else",
               "if-elseif-elseif-else", "switch1", "switch1-default", "switch2", "switch2-default", "switch3-default", "switch-grouped", "switch-grouped-default"]
 
 
